@@ -10,6 +10,7 @@ import (
 	"github.com/cosmos/cosmos-sdk/codec"
 	sdk "github.com/cosmos/cosmos-sdk/types"
 
+	clienttypes "github.com/bianjieai/tibc-go/modules/tibc/core/02-client/types"
 	packetkeeper "github.com/bianjieai/tibc-go/modules/tibc/core/04-packet/keeper"
 	packettypes "github.com/bianjieai/tibc-go/modules/tibc/core/04-packet/types"
 	"github.com/bianjieai/tibc-go/modules/tibc/core/exported"
@@ -35,6 +36,7 @@ type world struct {
 	clients []string // chain names with a registered client
 	status  map[string]exported.Status
 	calls   []verifyCall
+	updates int
 	// LC oracle: answers of the light client, one nondeterministic boolean per call
 	auth      bool
 	authCalls int
@@ -43,16 +45,44 @@ type world struct {
 
 // stubClient is the light client of one counterparty chain (contract LC of DESIGN.md §4).
 type stubClient struct {
-	w     *world
-	chain string
+	w      *world
+	chain  string
+	typ    string // client type ("" = "stub")
+	latest clienttypes.Height
 }
+
+// stubCons is a consensus state of a given client type.
+type stubCons struct{ typ string }
+
+func (c *stubCons) Reset()                    {}
+func (c *stubCons) String() string            { return "stubcons" }
+func (c *stubCons) ProtoMessage()             {}
+func (c *stubCons) ClientType() string        { return c.typ }
+func (c *stubCons) GetRoot() exported.Root    { return nil }
+func (c *stubCons) GetTimestamp() uint64      { return 0 }
+func (c *stubCons) ValidateBasic() error      { return nil }
+
+// stubHeader is a header for a stub client.
+type stubHeader struct{ h clienttypes.Height }
+
+func (h *stubHeader) Reset()                      {}
+func (h *stubHeader) String() string              { return "stubheader" }
+func (h *stubHeader) ProtoMessage()               {}
+func (h *stubHeader) ClientType() string          { return "stub" }
+func (h *stubHeader) GetHeight() exported.Height  { return h.h }
+func (h *stubHeader) ValidateBasic() error        { return nil }
 
 func (c *stubClient) Reset()         {}
 func (c *stubClient) String() string { return "stub" }
 func (c *stubClient) ProtoMessage()  {}
 
-func (c *stubClient) ClientType() string                 { return "stub" }
-func (c *stubClient) GetLatestHeight() exported.Height   { return nil }
+func (c *stubClient) ClientType() string {
+	if c.typ == "" {
+		return "stub"
+	}
+	return c.typ
+}
+func (c *stubClient) GetLatestHeight() exported.Height { return c.latest }
 func (c *stubClient) Validate() error                    { return nil }
 func (c *stubClient) GetDelayTime() uint64               { return 0 }
 func (c *stubClient) GetDelayBlock() uint64              { return 0 }
@@ -67,8 +97,12 @@ func (c *stubClient) Status(ctx sdk.Context, s storetypes.KVStore, cdc codec.Bin
 	return exported.Active
 }
 func (c *stubClient) ExportMetadata(storetypes.KVStore) []exported.GenesisMetadata { return nil }
-func (c *stubClient) CheckHeaderAndUpdateState(sdk.Context, codec.BinaryCodec, storetypes.KVStore, exported.Header) (exported.ClientState, exported.ConsensusState, error) {
-	return nil, nil, nil
+func (c *stubClient) CheckHeaderAndUpdateState(ctx sdk.Context, cdc codec.BinaryCodec, s storetypes.KVStore, h exported.Header) (exported.ClientState, exported.ConsensusState, error) {
+	c.w.updates++
+	if vp.Bool("lc.headerValid") {
+		return c, &stubCons{typ: c.ClientType()}, nil
+	}
+	return nil, nil, packettypes.ErrInvalidPacket
 }
 
 func (c *stubClient) verify(kind int, h exported.Height, proof []byte, src, dst string, seq uint64, value []byte) error {
